@@ -48,11 +48,13 @@ Theorem C09_accepted_pairs_have_positive_curvature : forall pw (P : params R) yt
 Proof. exact accepted_positive_curvature. Qed.
 Print Assumptions C09_accepted_pairs_have_positive_curvature.
 
-(* (3) two-loop recursion = dense BFGS operator, end to end: after ANY sequence of operations that contains no
-       apply_masked, apply(q, γ) returns false and leaves q alone on an empty history, and otherwise returns true and
-       q := H q, H = BFGS inverse Hessian of the abstract history with the documented initial scaling. *)
+(* (3) two-loop recursion = dense BFGS operator, end to end: after ANY interleaving of update / forced update /
+       apply / apply_masked / reset / resize / scale_y (no side condition on the operations: apply_masked never writes
+       the stored ρ, whatever q, γ, J it is given), apply(q, γ) returns false and leaves q alone on an empty history,
+       and otherwise returns true and q := H q, H = BFGS inverse Hessian of the abstract history with the documented
+       initial scaling. *)
 Theorem C09_apply_is_dense_bfgs_of_history : forall (pw : R -> R -> R) (P : params R) n st0 ops q γ,
-  resize P n = Some st0 -> has_masked ops = false ->
+  resize P n = Some st0 ->
   let st := run pw P ops st0 in
   let h := abs_run pw P ops [] in
   let o := snd (step pw P st (OApply q γ)) in
@@ -62,6 +64,23 @@ Theorem C09_apply_is_dense_bfgs_of_history : forall (pw : R -> R -> R) (P : para
   end.
 Proof. exact apply_after_any_history. Qed.
 Print Assumptions C09_apply_is_dense_bfgs_of_history.
+
+(* stored ρ = 1/(yᵀs) is an invariant of EVERY operation, apply_masked included *)
+Theorem C09_rho_ok_invariant : forall (pw : R -> R -> R) (P : params R) ops st,
+  inv P st -> rho_ok st -> inv P (run pw P ops st) /\ rho_ok (run pw P ops st).
+Proof. exact run_rho_ok. Qed.
+Print Assumptions C09_rho_ok_invariant.
+
+(* apply_masked (any q, γ, J; also when it throws or returns false) leaves the stored history alone: the
+   (s, y, ρ) triples in foreach_fwd order, s / y / ρ of every slot, current_history(); it only writes the workspace α *)
+Theorem C09_apply_masked_preserves_history : forall (pw : R -> R -> R) (P : params R) st q γ J,
+  let st' := snd (apply_masked pw P st q γ J) in
+  hist3 st' = hist3 st /\
+  (forall j, sl_s (get st' j) = sl_s (get st j) /\ sl_y (get st' j) = sl_y (get st j) /\ sl_ρ (get st' j) = sl_ρ (get st j)) /\
+  current_history st' = current_history st /\
+  (rho_ok st -> rho_ok st').
+Proof. exact apply_masked_keeps_history. Qed.
+Print Assumptions C09_apply_masked_preserves_history.
 
 (* the same for any single state whose stored ρ are intact *)
 Theorem C09_apply_is_dense_bfgs_of_stored_pairs : forall (P : params R) st q γ,
@@ -113,7 +132,8 @@ Proof. exact posdef_when_enforced. Qed.
 Print Assumptions C09_positive_definite_when_curvature_enforced.
 
 (* (5) masked variant: on the index set J the result is the same two-loop construction run on the J-restricted
-       vectors with ρ recomputed on J and pairs that fail the documented test on J skipped; outside J q is untouched.
+       vectors with ρ recomputed on J and pairs that fail the documented test on J skipped; outside J q is untouched;
+       the stored history and every stored ρ are unchanged (so rho_ok is kept).
        (J without repetition, in range; when J has n entries it is 0..n-1 in order, as an ascending index set is.)
        masked_plan = (pairs valid on J newest first, initial scaling: the given γ or, if curvature-based / γ < 0,
        1/(ρ yᵀy) of the most recent valid pair giving a non-negative value, success flag). *)
@@ -124,6 +144,7 @@ Theorem C09_masked_is_restricted_construction : forall (pw : R -> R -> R) (P : p
   (forall sl, In sl (hist st) -> length (sl_s sl) = length q /\ length (sl_y sl) = length q) ->
   let r := apply_masked pw P st q γ J in
   let '(kept, γ', ok) := masked_plan pw P J (rev (hist st)) (if p_curvature P then -1 else γ) in
+  (hist3 (snd r) = hist3 st /\ (forall j, sl_ρ (get (snd r) j) = sl_ρ (get st j)) /\ (rho_ok st -> rho_ok (snd r))) /\
   (forall j, ~ In j J -> nth j (snd (fst r)) 0 = nth j q 0) /\
   length (snd (fst r)) = length q /\
   if ok then fst (fst r) = MRet true /\ restr J (snd (fst r)) = Hop kept γ' (restr J q)
@@ -137,26 +158,32 @@ Theorem C09_scale_y_is_dense_rescale : forall (P : params R) st f, inv P st ->
 Proof. exact scale_y_dense. Qed.
 Print Assumptions C09_scale_y_is_dense_rescale.
 
-(* (7) REFUTED for the code as it is (finding F7): after apply_masked the stored ρ are overwritten with the
-       J-restricted values, so a later unmasked apply is NOT the BFGS operator of the stored pairs.
-       Witness: memory 1, n 2, update(s=[1,1], y=[2,1]); apply_masked([1,0], γ=1, J={0}); apply([1,0], γ=1)
-       returns [3/4, 1/4]; the dense BFGS inverse Hessian of the stored pair gives [5/9, -1/9]. *)
-Theorem C09_apply_after_masked_refuted :
-  exists (pw : R -> R -> R) (P : params R) (n : nat) (st0 : state R) (ops : list (op R)) (q : list R) (γ : R),
-    resize P n = Some st0 /\ has_masked ops = true /\
-    let st := run pw P ops st0 in
-    o_ret (snd (step pw P st (OApply q γ))) = 1%nat /\
-    o_q (snd (step pw P st (OApply q γ))) <> Hbfgs (pairs st) (doc_γ P (pairs st) γ) q.
-Proof. exact apply_after_masked_refuted. Qed.
-Print Assumptions C09_apply_after_masked_refuted.
+(* (7) the former finding F7 (repaired in /repo by 9c14560e5): apply_masked used to overwrite the stored ρ with the
+       J-restricted values, so a later unmasked apply was not the BFGS operator of the stored pairs.  The old witness
+       history now gives the dense result: memory 2, n 2, update(s=[1,1], y=[2,1]); apply_masked([1,0], γ=-1, J={0});
+       apply([1,0], γ=-1) returns [7/15, 1/15] = H [1,0]; the stored ρ is still 1/(yᵀs) = 1/3 (not 1/(s₀y₀) = 1/2). *)
+Example C09_apply_after_masked_is_dense_bfgs :
+  let P := {| p_memory := 2; p_min_div_fac := 0; p_min_abs_s := 0; p_cbfgs_α := 1; p_cbfgs_ϵ := 0;
+              p_force_pos_def := true; p_curvature := false |} in
+  let pw := fun _ _ : R => 0 in
+  let ops := [OUpdSy [1; 1] [2; 1] 0 false; OApplyM [1; 0] (-1) [0%nat]] in
+  let st0 := {| st_n := 2; st_idx := 0; st_full := false; st_slots := repeat (slot0 2) 2 |} in
+  resize P 2 = Some st0 /\ has_masked ops = true /\
+  let st := run pw P ops st0 in
+  pairs st = [([1; 1], [2; 1])] /\
+  map (fun sl => ρval (sl_ρ sl)) (hist st) = [1/3] /\
+  snd (step pw P st (OApply [1; 0] (-1))) = {| o_ret := 1; o_q := [7/15; 1/15] |} /\
+  Hbfgs (pairs st) (doc_γ P (pairs st) (-1)) [1; 0] = [7/15; 1/15].
+Proof. exact apply_after_masked_witness. Qed.
+Print Assumptions C09_apply_after_masked_is_dense_bfgs.
 
-(* non-vacuity: a concrete reachable state with wrap-around (memory 2, three accepted pairs, one rejected) meets the
-   hypotheses; the operator does something there *)
+(* non-vacuity: a concrete reachable state with wrap-around (memory 2, three accepted pairs, one rejected, an
+   apply_masked on J = {1} in between) meets the hypotheses; the operator does something there *)
 Example C09_nonvacuous :
   let P := {| p_memory := 2; p_min_div_fac := 0; p_min_abs_s := 0; p_cbfgs_α := 1; p_cbfgs_ϵ := 0;
               p_force_pos_def := true; p_curvature := true |} in
-  let ops := [OUpdSy [1; 0] [2; 1] 0 false; OUpdSy [1; 1] [-1; 0] 0 false; OUpdSy [0; 1] [1; 3] 0 false; OUpdSy [1; 1] [3; 1] 0 false] in
-  exists st0, resize P 2 = Some st0 /\ has_masked ops = false /\
+  let ops := [OUpdSy [1; 0] [2; 1] 0 false; OUpdSy [1; 1] [-1; 0] 0 false; OUpdSy [0; 1] [1; 3] 0 false; OApplyM [1; 1] 1 [1%nat]; OUpdSy [1; 1] [3; 1] 0 false] in
+  exists st0, resize P 2 = Some st0 /\ has_masked ops = true /\
     abs_run wpw P ops [] = [([0; 1], [1; 3]); ([1; 1], [3; 1])] /\
     wf 2 (abs_run wpw P ops []) /\ Forall (fun p => 0 < rdot (snd p) (fst p)) (abs_run wpw P ops []) /\
     0 < doc_γ P (abs_run wpw P ops []) (-1).
@@ -164,7 +191,7 @@ Proof.
   cbn zeta. eexists; split; [reflexivity|]. split; [reflexivity|].
   assert (E : abs_run wpw {| p_memory := 2; p_min_div_fac := 0; p_min_abs_s := 0; p_cbfgs_α := 1; p_cbfgs_ϵ := 0;
               p_force_pos_def := true; p_curvature := true |}
-              [OUpdSy [1; 0] [2; 1] 0 false; OUpdSy [1; 1] [-1; 0] 0 false; OUpdSy [0; 1] [1; 3] 0 false; OUpdSy [1; 1] [3; 1] 0 false] []
+              [OUpdSy [1; 0] [2; 1] 0 false; OUpdSy [1; 1] [-1; 0] 0 false; OUpdSy [0; 1] [1; 3] 0 false; OApplyM [1; 1] 1 [1%nat]; OUpdSy [1; 1] [3; 1] 0 false] []
             = [([0; 1], [1; 3]); ([1; 1], [3; 1])]) by (rcompute; reflexivity).
   rewrite E. split; [reflexivity|]. split; [repeat constructor|]. split; [repeat constructor; cbn; lra|].
   rcompute; lra.
